@@ -220,6 +220,12 @@ func c11Scenarios() []scenario {
 				&gen.Call{Name: "set_tx_meta", Args: []gen.Expr{gen.Str("k"), gen.V("s")}}}}
 		// ... and a string value with blanks around it (the caller's map must keep it as it is)
 		out = append(out, scenario{Name: "origin-before-plain", Text: gen.Text(prog), Vars: map[string]string{"w": "b", "s": " padded \n"}, AltVars: map[string]string{"w": "a", "s": "other"}, Bal: bal, Meta: meta})
+		// balance() of an overdrawn account: rejected, whatever flags are set (the script never calls overdraft())
+		prog = &gen.Program{Vars: []*gen.VarDecl{originDecl("monetary", "m", "balance", gen.Acct("neg"), gen.Asset("USD"))},
+			Stmts: []gen.Stmt{&gen.Send{Sent: &gen.SentLit{E: gen.V("m")}, Src: sa("world"), Dst: da("x")}}}
+		nb := env.CloneBal(bal)
+		nb["neg"] = map[string]*big.Int{"USD": bi(-7)}
+		out = append(out, scenario{Name: "balance-of-overdrawn-account", Text: gen.Text(prog), Vars: map[string]string{}, Bal: nb, Meta: meta})
 		// metadata of an account the store knows nothing about (the run fails; the store must stay as it was)
 		prog = &gen.Program{Vars: []*gen.VarDecl{originDecl("account", "v", "meta", gen.Acct("zz"), gen.Str("acc"))},
 			Stmts: []gen.Stmt{sendN("USD", "1", &gen.SrcAccount{E: gen.V("v")}, da("x"))}}
